@@ -2509,6 +2509,38 @@ impl Compiler {
     }
 
     /// Compile a static field initializer (sets property on class constructor)
+    /// Evaluate the initializer of a static field with `this` bound to the class: the
+    /// initializer runs as the body of a function called on the class, like a static block
+    fn compile_static_initializer_value(
+        &mut self,
+        class_reg: super::bytecode::Register,
+        init: &crate::ast::Expression,
+        span: crate::lexer::Span,
+        value_reg: super::bytecode::Register,
+    ) -> Result<(), JsError> {
+        let body = [Statement::Return(ReturnStatement {
+            argument: Some(Rc::new(init.clone())),
+            span,
+        })];
+        let empty_params: [crate::ast::FunctionParam; 0] = [];
+        let chunk = self.compile_function_body(&empty_params, &body, None, false, false, false)?;
+        let chunk_idx = self.builder.add_chunk(chunk)?;
+        let fn_reg = self.builder.alloc_register()?;
+        self.builder.emit(Op::CreateClosure {
+            dst: fn_reg,
+            chunk_idx,
+        });
+        self.builder.emit(Op::Call {
+            dst: value_reg,
+            callee: fn_reg,
+            this: class_reg,
+            args_start: 0,
+            argc: 0,
+        });
+        self.builder.free_register(fn_reg);
+        Ok(())
+    }
+
     fn compile_static_field_initializer(
         &mut self,
         class_reg: super::bytecode::Register,
@@ -2524,7 +2556,7 @@ impl Compiler {
                 self.compile_expression(key_expr, key_reg)?;
                 let value_reg = self.builder.alloc_register()?;
                 if let Some(init) = &field.value {
-                    self.compile_expression(init, value_reg)?;
+                    self.compile_static_initializer_value(class_reg, init, field.span, value_reg)?;
                 } else {
                     self.builder.emit(Op::LoadUndefined { dst: value_reg });
                 }
@@ -2545,7 +2577,7 @@ impl Compiler {
         // Compile field initializer or use undefined
         let value_reg = self.builder.alloc_register()?;
         if let Some(init) = &field.value {
-            self.compile_expression(init, value_reg)?;
+            self.compile_static_initializer_value(class_reg, init, field.span, value_reg)?;
         } else {
             self.builder.emit(Op::LoadUndefined { dst: value_reg });
         }
